@@ -447,6 +447,12 @@ def mem2_newton_solver(
         magnitude_current_iterate = np.linalg.norm(current_iterate)
         magnitude_update = np.linalg.norm(update_iterate)
 
+        if magnitude_update == 0.0:
+            # Singular jacobian (the distribution collapsed onto a single bin): the
+            # least-squares update vanishes and there is nothing to search along.
+            convergence = False
+            break
+
         # Do a line search for the optimum decrease. This is intended to stabilize the
         # algorithm as the equations are ill-posed.
         line_search_factor = 1
